@@ -23,7 +23,9 @@ IdText(idb) == LET hi == idb[1] * 256 + idb[2]  lo == idb[3] * 256 + idb[4]
                    q == 6 * hi + t \div 10000  r == t % 10000 IN
                "ID_" \o (IF q = 0 THEN ToString(r) ELSE ToString(q) \o Pad4(r))
 \* the ids documents use (TLC strings cannot be taken apart): a table; any other id matches no document id
-TextOf(b) == CASE b = <<65, 80, 80>> -> "APP" [] b = <<67, 84, 88>> -> "CTX" [] OTHER -> "?"
+TextOf(b) == CASE b = <<65, 80, 80>> -> "APP" [] b = <<67, 84, 88>> -> "CTX"
+               [] b = <<65, 112, 112>> -> "App" [] b = <<97, 112, 112>> -> "app"         \* case variants are ids of their own
+               [] b = <<67, 116, 120>> -> "Ctx" [] b = <<99, 116, 120>> -> "ctx" [] OTHER -> "?"
 RECURSIVE Flatten(_)
 Flatten(pdus) == IF pdus = <<>> THEN <<>> ELSE Head(pdus).signal_types \o Flatten(Tail(pdus))
 
